@@ -252,9 +252,16 @@ def _length(repo, col, fi, ex):
     col.check(any("_radius_generating_fns" in x and "None" in x for x in g), R, fi, "SWC radius used iff radius functions exist", str(g),
               f"guard is {g}", node=swc.node)
     v = const.value
-    ok = T.find(v, lambda x: x.op == "sub" and x.args[1].op == "const" and x.args[1].name == 0 and
-                T.find(x, lambda y: y.op == "const" and y.name == "radius") is not None) is not None and \
-        T.find(v, lambda x: x.op == "mcall" and x.name == "ones" and x.args[1].op == "param" and x.args[1].name == "ncomp") is not None
+    # the branch is uniform here (the refusing guard above, R-C13-uniform): ANY old entry, and any statistic that returns an entry of a
+    # constant column (mean, median, min, max), is that radius; it is given to each of the `ncomp` new compartments
+    is_rad = lambda x: T.find(x, lambda y: y.op == "const" and y.name == "radius") is not None
+    one_old = T.find(v, lambda x: (x.op == "sub" and x.args[1].op == "const" and isinstance(x.args[1].name, int) and is_rad(x)) or
+                     (x.op in ("mcall", "call") and x.name in ("mean", "median", "min", "max", "amin", "amax", "item") and is_rad(x))) is not None
+    is_n = lambda a_: a_.op == "param" and a_.name == "ncomp"
+    per_new = T.find(v, lambda x: x.op in ("mcall", "call") and x.name in ("ones", "full", "repeat", "tile", "broadcast_to") and
+                     any(is_n(a_) or (a_.op == "tuple" and len(a_.args) == 1 and is_n(a_.args[0])) for a_ in list(x.args) + list(x.kw.values()))) is not None or \
+        T.find(v, lambda x: x.op == "binop" and x.name == "*" and any(a_.op == "list" and len(a_.args) == 1 for a_ in x.args) and any(is_n(a_) for a_ in x.args)) is not None
+    ok = one_old and per_new
     col.check(ok, R, fi, "otherwise: the (uniform) old radius for every new compartment", "radius[0] * ones(ncomp)",
               f"constant radius is {v.short(100)}", node=const.node)
     # read_swc sibling
